@@ -41,6 +41,21 @@ def proof_side(ctx, prop):
         if prop.NAMESPACE + "." + r not in have:
             res["ok"] = False
             res["failures"].append({"kind": "missing-theorem", "detail": prop.NAMESPACE + "." + r})
+    # theorems owned by other properties that this property's claim rests on: they must exist and be axiom-clean
+    for ns, names in getattr(prop, "REQUIRED_ELSEWHERE", {}).items():
+        rc2, thms2, raw2 = C.audit(prop.LEAN_MODULES, ns)
+        have2 = {t["name"]: t for t in thms2}
+        for n in names:
+            t = have2.get(ns + "." + n)
+            if not t:
+                res["ok"] = False
+                res["failures"].append({"kind": "missing-theorem", "detail": ns + "." + n})
+            else:
+                bad = [a for a in t["axioms"] if a not in C.ALLOWED_AXIOMS]
+                if bad:
+                    res["ok"] = False
+                    res["failures"].append({"kind": "axioms", "detail": "%s depends on %s" % (t["name"], bad)})
+                res["theorems"].append(t)
     if ctx.thorough() and res["ok"] and not os.environ.get("VERIF_NO_LEANCHECKER"):
         for m in prop.LEAN_MODULES:
             r = C.sh(["lake", "env", "leanchecker", m], cwd=C.LEAN)
